@@ -3,11 +3,12 @@
 //! result: `N <feedlen> | L <off> <line|-> <col|-> ... | S <s> <e> <st> <en>|P ...`
 //! over all char-boundary offsets / spans of the concatenated text, plus
 //! one out-of-range offset.
-use crate::util::*;
+use gvh::util::*;
 use cfgrammar::{NewlineCache, Span};
 use std::fmt::Write;
 
-pub fn main(_args: &[String]) {
+fn main() {
+    gvh::quiet_panics();
     for_each_case(|line| {
         let chunks: Vec<String> = line.split(';').map(cps_to_string).collect();
         let text: String = chunks.concat();
